@@ -604,6 +604,10 @@ func (m *Model) Step(st *MState, msgs []pgwire.FMsg, i int) []Branch {
 	case "closed":
 		return one(Branch{Next: st, End: true})
 	}
+	if c.K == "flood" && len(c.Data) < m.Limit && (st.Phase == "ready" || st.Phase == "discarding") && strings.IndexByte("dcfH", c.T) >= 0 {
+		// a run of COPY messages outside COPY mode (or of Flush): ignored, however long
+		return one(Branch{Next: st})
+	}
 	t := c.TypeByte()
 	if c.K == "raw" || t == 0 || c.Cut != nil || c.NoNul || len(c.CountOverride) > 0 {
 		return one(Branch{Next: st, Loose: true})
@@ -918,15 +922,31 @@ func (m *Model) stepStartup(st *MState, c *pgwire.FMsg) []Branch {
 			}
 			n.CParams[kv[0]] = kv[1]
 		}
+		// a client that asks for a newer minor version or for protocol options
+		// may be told what the server supports before the authentication exchange
+		var pre []Exp
+		negotiable := c.Proto != 0 && c.Proto != pgwire.ProtoV3
+		for _, kv := range c.KV {
+			if strings.HasPrefix(kv[0], "_pq_.") {
+				negotiable = true
+			}
+		}
+		if negotiable {
+			pre = []Exp{{T: 'v', Opt: true, Desc: "NegotiateProtocolVersion"}}
+		}
 		if m.Cfg.Auth == "cleartext" {
 			n.Phase = "auth"
-			return one(Branch{Exp: []Exp{expAuth(3)}, Next: n})
+			return one(Branch{Exp: append(pre, expAuth(3)), Next: n})
 		}
 		if m.Cfg.Auth == "custom-fail" {
 			n.Phase = "closed"
 			return one(Branch{Next: n, End: true})
 		}
-		return m.afterAuth(n, nil)
+		bs := m.afterAuth(n, nil)
+		for i := range bs {
+			bs[i].Exp = append(append([]Exp{}, pre...), bs[i].Exp...)
+		}
+		return bs
 	case "ssl":
 		if st.SSLDone || m.Cfg.TLS == "certs" {
 			return one(Branch{Next: st, Loose: true})
